@@ -62,7 +62,13 @@ pub fn group_solver(
     free: &ConciseFreeResources,
     entries: &[&crate::resources::ResourceAllocRequest],
     weights: &[CouplingWeightItem],
+    tie_breaking: bool,
 ) -> Option<(SelectedGroups, f64)> {
+    // The tie-breaking terms of the objective (prefer groups with fewer free units / with the
+    // biggest free fraction) choose among solutions with the same number of groups and the same
+    // coupling weights. They depend on the current free amounts, so they have to be switched off
+    // when objective values of different worker states are compared (strict policies).
+    let tie = if tie_breaking { 1.0 } else { 0.0 };
     let mut solver = LpSolver::new(false);
     let vars: SmallVec<[SmallVec<_>; FAST_MAX_COUPLED_RESOURCES]> = entries
         .iter()
@@ -72,7 +78,7 @@ pub fn group_solver(
             if fractions == 0 {
                 let vs = r
                     .units_per_group()
-                    .map(|u| solver.add_bool_variable(-1024.0 - (u as f64) / 32.0))
+                    .map(|u| solver.add_bool_variable(-1024.0 - tie * (u as f64) / 32.0))
                     .collect::<SmallVec<[_; FAST_MAX_GROUPS]>>();
                 solver.add_constraint(
                     ConstraintType::Min,
@@ -91,7 +97,7 @@ pub fn group_solver(
                         if *f >= fractions {
                             need_second_check = true;
                             solver.add_bool_variable(
-                                -1024.0 + (*f as f64 / (FRACTIONS_PER_UNIT as f64 / 16.0)),
+                                -1024.0 + tie * (*f as f64 / (FRACTIONS_PER_UNIT as f64 / 16.0)),
                             )
                         } else {
                             solver.add_bool_variable(-1024.0)
